@@ -35,10 +35,19 @@ var solvers = []solverSpec{
 		"(set-option :smt.mbqi false)\n(set-option :auto_config false)\n(set-option :smt.auto_config false)\n"},
 	{"z3-5.1.0", "z3-new", func(t int) []string { return []string{"-smt2", fmt.Sprintf("-T:%d", (t+999)/1000)} },
 		"(set-option :smt.mbqi false)\n(set-option :auto_config false)\n(set-option :smt.auto_config false)\n"},
+	// the same solver without the array extensionality axioms (a weaker theory: an unsat answer stays valid); much
+	// faster on heaps that hold maps keyed by arrays
+	{"z3-5.1.0-noext", "z3-new", func(t int) []string {
+		return []string{"-smt2", fmt.Sprintf("-T:%d", (t+999)/1000), "smt.array.extensional=false"}
+	},
+		"(set-option :smt.mbqi false)\n(set-option :auto_config false)\n(set-option :smt.auto_config false)\n"},
 }
 
 // oblText builds the SMT-LIB text of an obligation.
-func (g *Gen) oblText(o *Obligation, head string) string {
+func (g *Gen) oblText(o *Obligation, head string) string { return g.oblTextExtra(o, head, "") }
+
+// oblTextExtra: the obligation with one more assumption (a case of a case split).
+func (g *Gen) oblTextExtra(o *Obligation, head string, extra string) string {
 	var b strings.Builder
 	b.WriteString("; obligation: " + o.Name + "\n")
 	b.WriteString(head)
@@ -51,6 +60,9 @@ func (g *Gen) oblText(o *Obligation, head string) string {
 		b.WriteByte('\n')
 	}
 	b.WriteString("(assert " + o.Reach + ")\n")
+	if extra != "" {
+		b.WriteString("(assert " + extra + ")\n")
+	}
 	if !o.Cover {
 		b.WriteString("(assert (not " + o.Goal + "))\n")
 	}
@@ -60,6 +72,11 @@ func (g *Gen) oblText(o *Obligation, head string) string {
 
 func runSolver(ctx context.Context, sp solverSpec, file string, timeoutMs int) (string, string, int64) {
 	start := time.Now()
+	if os.Getenv("GOWP_NOEXT") != "" {
+		sp.args = func(base func(int) []string) func(int) []string {
+			return func(t int) []string { return append(base(t), "smt.array.extensional=false") }
+		}(sp.args)
+	}
 	cctx, cancel := context.WithTimeout(ctx, time.Duration(timeoutMs+2000)*time.Millisecond)
 	defer cancel()
 	args := append(sp.args(timeoutMs), file)
@@ -126,7 +143,7 @@ func solveOne(g *Gen, o *Obligation, workDir string, timeoutMs int) *Verdict {
 		if timeoutMs > 1500 {
 			timeoutMs = 1500
 		}
-		use = solvers[1:]
+		use = solvers[1:2]
 	}
 	for si, sp := range use {
 		file := fmt.Sprintf("%s.%d.smt2", base, si)
@@ -144,6 +161,12 @@ func solveOne(g *Gen, o *Obligation, workDir string, timeoutMs int) *Verdict {
 	var last ans
 	for i := 0; i < nUse; i++ {
 		a := <-ch
+		if a.first == "sat" && strings.HasSuffix(a.solver, "-noext") {
+			a.first = "unknown" // a model of the weaker theory proves nothing
+		}
+		if (last.first == "unsat" || last.first == "sat") && a.first != "unsat" && a.first != "sat" {
+			continue
+		}
 		last = a
 		if a.first == "unsat" || a.first == "sat" {
 			cancel()
@@ -170,8 +193,51 @@ func solveOne(g *Gen, o *Obligation, workDir string, timeoutMs int) *Verdict {
 	default:
 		v.Status = "unknown"
 		v.Detail = trunc(last.txt, 200)
+		if len(o.Splits) > 1 && !o.Cover {
+			if ms, ok := solveSplit(g, o, base, timeoutMs); ok {
+				v.Status = "discharged"
+				v.Solver = "z3-5.1.0+split"
+				v.Ms += ms
+				v.Detail = fmt.Sprintf("case split over %d incoming edges", len(o.Splits))
+			} else {
+				v.Ms += ms
+			}
+		}
 	}
 	return v
+}
+
+// solveSplit proves an obligation by cases: one query per incoming edge of the nearest control-flow merge, plus one
+// query showing that the cases are exhaustive under the path condition. All must be unsat.
+func solveSplit(g *Gen, o *Obligation, base string, timeoutMs int) (int64, bool) {
+	sp := solvers[2] // unsat answers only: the weaker, faster theory is enough
+	var total int64
+	cases := append([]string(nil), o.Splits...)
+	var negs []string
+	for _, c := range o.Splits {
+		negs = append(negs, "(not "+c+")")
+	}
+	for i, c := range cases {
+		file := fmt.Sprintf("%s.split%d.smt2", base, i)
+		if err := os.WriteFile(file, []byte(g.oblTextExtra(o, sp.head, c)), 0o644); err != nil {
+			return total, false
+		}
+		first, _, ms := runSolver(context.Background(), sp, file, timeoutMs)
+		total += ms
+		if first != "unsat" {
+			return total, false
+		}
+	}
+	// exhaustiveness: reach and none of the cases is contradictory (goal replaced by false)
+	ex := *o
+	ex.Goal = "false"
+	file := base + ".splitx.smt2"
+	if err := os.WriteFile(file, []byte(g.oblTextExtra(&ex, sp.head, "(and "+strings.Join(negs, " ")+")")), 0o644); err != nil {
+		return total, false
+	}
+	first, _, ms := runSolver(context.Background(), sp, file, timeoutMs)
+	total += ms
+	return total, first == "unsat"
 }
 
 func lastN(s string, n int) string {
